@@ -205,8 +205,9 @@ class Gen:
             badp = rng.choice([0.0, 0.0, 0.15, 0.3]) if kind != "map" else 0.0
             emptyp = rng.choice([0.0, 0.0, 0.2])
             oneshot = rng.choice([0.0, 0.0, 0.5]) if kind == "starmap" else 0.0
-            st["elems"] = [1 if rng.random() < badp else (2 if rng.random() < emptyp else (3 if rng.random() < oneshot else 0))
-                           for _ in range(n)]
+            strp = rng.choice([0.0, 0.0, 0.3]) if kind == "starmap" else 0.0
+            st["elems"] = [1 if rng.random() < badp else (2 if rng.random() < emptyp else (3 if rng.random() < oneshot else
+                           (rng.choice([6, 7]) if rng.random() < strp else 0))) for _ in range(n)]
             if n and rng.random() < self.iterx:
                 st["elems"][rng.randrange(n)] = 4        # the iterable raises when it gets here
             st["nc"] = rng.choice([1, 1, 2, 2, 3, 5])
